@@ -97,44 +97,44 @@ Proof. Time hs. Qed.
 
 Definition ptrue (_ : chan) : Prop := True.
 Lemma conn_close_chan_spec c e : hspec c 0 ptrue (conn_close_chan c e).
-Proof. hs. Qed.
+Proof. Time hs. Qed.
 Lemma write_eof_spec c : hspec c 0 ptrue (write_eof c).
-Proof. hs. Qed.
+Proof. Time hs. Qed.
 Lemma chan_close_spec c : hspec c 1 ptrue (chan_close c).
-Proof. hs. Qed.
+Proof. Time hs. Qed.
 Lemma chan_abort_spec c : hspec c 1 ptrue (chan_abort c).
-Proof. hs. Qed.
+Proof. Time hs. Qed.
 Lemma chan_write_spec c cls : hspec c 0 ptrue (chan_write c cls).
-Proof. hs. Qed.
+Proof. Time hs. Qed.
 Lemma chan_pause_spec c : hspec c 0 ptrue chan_pause.
-Proof. hs. Qed.
+Proof. Time hs. Qed.
 Lemma chan_resume_spec c : hspec c 1 ptrue (chan_resume c).
-Proof. hs. Qed.
+Proof. Time hs. Qed.
 Lemma chan_wait_closed_spec c : hspec c 0 ptrue (chan_wait_closed c).
-Proof. hs. Qed.
+Proof. Time hs. Qed.
 Lemma chan_read_spec c : hspec c 0 ptrue (chan_read c).
-Proof. hs. Qed.
+Proof. Time hs. Qed.
 Lemma chan_drain_spec c : hspec c 0 ptrue (chan_drain c).
-Proof. hs. Qed.
+Proof. Time hs. Qed.
 Lemma chan_confirm_spec c : hspec c 0 (fun ch => is_open_wait ch = true /\ reg ch = true) (chan_confirm c).
-Proof. hs. Qed.
+Proof. Time hs. Qed.
 Lemma chan_fail_spec c : hspec c 1 (fun ch => is_open_wait ch = true /\ reg ch = true) (chan_fail c).
-Proof. hs. Qed.
+Proof. Time hs. Qed.
 Lemma chan_data_spec c : hspec c 0 (fun ch => rs_open ch = true) (chan_data c).
-Proof. hs. Qed.
+Proof. Time hs. Qed.
 Lemma chan_peof_spec c : hspec c 1 (fun ch => rs_open ch = true) (chan_peof c).
-Proof. hs. Qed.
+Proof. Time hs. Qed.
 Lemma chan_pclose_spec c : hspec c 1 ptrue (chan_pclose c).
-Proof. hs. Qed.
+Proof. Time hs. Qed.
 Lemma chan_adjust_spec c cls : hspec c 0 ptrue (chan_adjust c cls).
-Proof. hs. Qed.
+Proof. Time hs. Qed.
 Lemma chan_reply_spec c ok : hspec c 0 (fun ch => reg ch = true) (chan_reply c ok).
-Proof. hs. Qed.
+Proof. Time hs. Qed.
 Lemma chan_request_spec c f w a : hspec c 1 ptrue (chan_request c f w a).
-Proof. hs. Qed.
+Proof. Time hs. Qed.
 Lemma create_step_spec c tr : hspec c 0 ptrue (create_step c tr).
-Proof. hs. Qed.
+Proof. Time hs. Qed.
 Lemma start_reading_spec c : hspec c 1 ptrue (start_reading c).
-Proof. hs. Qed.
+Proof. Time hs. Qed.
 Lemma finish_open_spec c : hspec c 1 ptrue (finish_open c).
-Proof. hs. Qed.
+Proof. Time hs. Qed.
